@@ -226,6 +226,15 @@ func (env *Env) ident(name string) Value {
 }
 
 func (env *Env) local(name string) (Value, bool) {
+	if env.fr.fn != nil {
+		for _, fv := range env.fr.fn.FreeVars {
+			if fv.Name() == name {
+				pv := env.ex.val(env.fr, env.st, fv)
+				t := derefType(fv.Type())
+				return env.ex.readLoc(env.st, &Loc{Kind: LRef, Ref: pv.one(), Keys: refKeys(t), T: t}), true
+			}
+		}
+	}
 	want := 0
 	base := name
 	if i := strings.Index(name, "@"); i > 0 {
@@ -1075,6 +1084,23 @@ func (env *Env) specCall(sf *SpecFunc, args []Value, pol int) Value {
 			}
 		}
 		flat = append(flat, a.C...)
+	}
+	for _, rk := range sf.Reads {
+		keys := []string{rk}
+		if strings.HasPrefix(rk, "elems(") && strings.HasSuffix(rk, ")") {
+			et, err := eng.parseType(rk[6:len(rk)-1], specPkg)
+			if err != nil {
+				cfail("spec %s: reads %s: %v", sf.Name, rk, err)
+			}
+			keys = elemKeys(et)
+		}
+		for _, k := range keys {
+			srt, ok := keySortReg[k]
+			if !ok {
+				cfail("spec %s: unknown heap key %s in reads clause", sf.Name, k)
+			}
+			flat = append(flat, env.st.heap.Get(k, srt))
+		}
 	}
 	rl := layout(rt)
 	out := Value{T: rt, C: make([]*Term, len(rl))}
